@@ -144,6 +144,27 @@ theorem flush_len5 {e : Enc} (h : 1 ≤ e.cacheSize) : 5 ≤ (encFlush e).out.le
 
 abbrev ChunkLoopSt := LzmaEnc × Nat × Nat × Nat × Nat × Nat
 
+/-- body of the symbol loop of `encodeChunkL lim`: state (encoder, offset, trace index, symbols, read_ahead, fuel) -/
+def chunkBodyL (lim : ChunkLimits) (dictSize : Nat) (buf : ByteArray) (base : Nat) (tr : Array TraceRec) (segEnd : Nat) (p : Props) (off : Nat)
+    (_ : Unit) (s : ChunkLoopSt) : Except String (ForInStep ChunkLoopSt) :=
+  if s.2.2.2.2.2 > 0 then
+    if chunkFullL lim (s.2.1 - off) s.1.rc = true then
+      pure (ForInStep.done (s.1, s.2.1, s.2.2.1, s.2.2.2.1, s.2.2.2.2.1, s.2.2.2.2.2 - 1))
+    else if s.2.2.1 ≥ segEnd then
+      pure (ForInStep.done (s.1, s.2.1, s.2.2.1, s.2.2.2.1, s.2.2.2.2.1, s.2.2.2.2.2 - 1))
+    else if (tr[s.2.2.1]!.kind != 0) = true then
+      .error s!"trace record {s.2.2.1}: unexpected kind {(tr[s.2.2.1]!).kind} inside a chunk"
+    else if (tr[s.2.2.1]!.pos != s.1.uncompSize % 4294967296) = true then
+      .error s!"trace record {s.2.2.1}: position {(tr[s.2.2.1]!).pos} but the model's uncomp_size is {s.1.uncompSize}"
+    else
+      checkSym dictSize buf base s.2.1 s.1.st tr[s.2.2.1]!.back tr[s.2.2.1]!.len >>= fun x =>
+        pure (ForInStep.yield
+          ({ (s.1.encode (symOps p s.1.st s.1.uncompSize x.2.1 x.2.2 x.1).1) with
+              st := (symOps p s.1.st s.1.uncompSize x.2.1 x.2.2 x.1).2,
+              uncompSize := (s.1.encode (symOps p s.1.st s.1.uncompSize x.2.1 x.2.2 x.1).1).uncompSize + tr[s.2.2.1]!.len },
+           s.2.1 + tr[s.2.2.1]!.len, s.2.2.1 + 1, s.2.2.2.1 + 1, tr[s.2.2.1]!.ra, s.2.2.2.2.2 - 1))
+  else pure (ForInStep.done (s.1, s.2.1, s.2.2.1, s.2.2.2.1, s.2.2.2.2.1, s.2.2.2.2.2))
+
 /-- body of the symbol loop of `encodeChunk`: state (encoder, offset, trace index, symbols, read_ahead, fuel) -/
 def chunkBody (dictSize : Nat) (buf : ByteArray) (base : Nat) (tr : Array TraceRec) (segEnd : Nat) (p : Props) (off : Nat)
     (_ : Unit) (s : ChunkLoopSt) : Except String (ForInStep ChunkLoopSt) :=
@@ -164,6 +185,13 @@ def chunkBody (dictSize : Nat) (buf : ByteArray) (base : Nat) (tr : Array TraceR
               uncompSize := (s.1.encode (symOps p s.1.st s.1.uncompSize x.2.1 x.2.2 x.1).1).uncompSize + tr[s.2.2.1]!.len },
            s.2.1 + tr[s.2.2.1]!.len, s.2.2.1 + 1, s.2.2.2.1 + 1, tr[s.2.2.1]!.ra, s.2.2.2.2.2 - 1))
   else pure (ForInStep.done (s.1, s.2.1, s.2.2.1, s.2.2.2.1, s.2.2.2.2.1, s.2.2.2.2.2))
+
+/-! The old names are the specialisations to the limits of xz 5.8.1 (`ChunkLimits.std`); they are kept written out because
+    the end-to-end proofs unfold them. -/
+theorem chunkFull_std (u : Nat) (rc : Enc) : chunkFull u rc = chunkFullL .std u rc := rfl
+theorem encodeChunk_std : @encodeChunk = @encodeChunkL .std := rfl
+theorem lzma2Encode_std : @lzma2Encode = @lzma2EncodeL .std := rfl
+theorem chunkBody_std : @chunkBody = @chunkBodyL .std := rfl
 
 /-- what `encodeChunk` does after the loop: `rc_flush`, choose LZMA / uncompressed chunk, header, new flags -/
 def chunkTail (buf : ByteArray) (base : Nat) (c : L2Enc) (off : Nat) (ini : Bool) (s : ChunkLoopSt) :
@@ -192,6 +220,22 @@ def chunkTail (buf : ByteArray) (base : Nat) (c : L2Enc) (off : Nat) (ini : Bool
 /-- the encoder state at the start of a chunk (SEQ_INIT: `if (need_state_reset) lzma_lzma_encoder_reset()`) -/
 def chunkE0 (c : L2Enc) : LzmaEnc := if c.needStateReset = true then c.lz.reset c.lz.props else c.lz
 
+theorem encodeChunkL_eq (lim : ChunkLimits) (dictSize : Nat) (buf : ByteArray) (base : Nat) (tr : Array TraceRec) (segEnd : Nat) (c : L2Enc)
+    (off ti : Nat) :
+    encodeChunkL lim dictSize buf base tr segEnd c off ti =
+      if (!c.initialized) = true then
+        forIn Lean.Loop.mk
+          (({ (chunkE0 c).encode (initOps (buf.get! (base + off))) with
+                uncompSize := ((chunkE0 c).encode (initOps (buf.get! (base + off)))).uncompSize + 1 },
+            off + 1, ti, 1, 0, tr.size + 1) : ChunkLoopSt)
+          (chunkBodyL lim dictSize buf base tr segEnd c.lz.props off) >>= chunkTail buf base c off true
+      else
+        forIn Lean.Loop.mk ((chunkE0 c, off, ti, 0, 0, tr.size + 1) : ChunkLoopSt)
+          (chunkBodyL lim dictSize buf base tr segEnd c.lz.props off) >>= chunkTail buf base c off c.initialized := by
+  unfold encodeChunkL
+  simp only [except_throw_bind]
+  split <;> rfl
+
 theorem encodeChunk_eq (dictSize : Nat) (buf : ByteArray) (base : Nat) (tr : Array TraceRec) (segEnd : Nat) (c : L2Enc)
     (off ti : Nat) :
     encodeChunk dictSize buf base tr segEnd c off ti =
@@ -204,9 +248,7 @@ theorem encodeChunk_eq (dictSize : Nat) (buf : ByteArray) (base : Nat) (tr : Arr
       else
         forIn Lean.Loop.mk ((chunkE0 c, off, ti, 0, 0, tr.size + 1) : ChunkLoopSt)
           (chunkBody dictSize buf base tr segEnd c.lz.props off) >>= chunkTail buf base c off c.initialized := by
-  unfold encodeChunk
-  simp only [except_throw_bind]
-  split <;> rfl
+  rw [encodeChunk_std, chunkBody_std]; exact encodeChunkL_eq .std dictSize buf base tr segEnd c off ti
 
 /-! ### the chunk specification -/
 
@@ -272,17 +314,18 @@ theorem symsLen_append (a b : List Sym) : symsLen (a ++ b) = symsLen a + symsLen
   | nil => simp [symsLen]
   | cons x a ih => simp only [List.cons_append, symsLen, ih]; omega
 
-theorem chunkBody_step (p : Props) (dictSize : Nat) (buf : ByteArray) (base : Nat) (tr : Array TraceRec) (segEnd off : Nat)
+set_option maxRecDepth 4000 in
+theorem chunkBodyL_step (lim : ChunkLimits) (p : Props) (dictSize : Nat) (buf : ByteArray) (base : Nat) (tr : Array TraceRec) (segEnd off : Nat)
     (e0 : LzmaEnc) (s : ChunkLoopSt) (hinv : ChInv p dictSize buf base off e0 s) :
-    match chunkBody dictSize buf base tr segEnd p off () s with
+    match chunkBodyL lim dictSize buf base tr segEnd p off () s with
     | .ok (.yield s') => ChInv p dictSize buf base off e0 s' ∧ s'.2.2.2.2.2 < s.2.2.2.2.2
     | .ok (.done s') => ChInv p dictSize buf base off e0 s'
     | .error _ => True := by
   obtain ⟨hoff, hle, hprops, syms, ops, henc, heo, hlen⟩ := hinv
-  unfold chunkBody
+  unfold chunkBodyL
   by_cases hfuel : s.2.2.2.2.2 > 0
   · rw [if_pos hfuel]
-    by_cases hfull : chunkFull (s.2.1 - off) s.1.rc = true
+    by_cases hfull : chunkFullL lim (s.2.1 - off) s.1.rc = true
     · rw [if_pos hfull]; exact ⟨hoff, hle, hprops, syms, ops, henc, heo, hlen⟩
     rw [if_neg hfull]
     by_cases hseg : s.2.2.1 ≥ segEnd
@@ -309,6 +352,14 @@ theorem chunkBody_step (p : Props) (dictSize : Nat) (buf : ByteArray) (base : Na
       · rw [symsLen_append]
         simp only [symsLen, hslen, hlen]; omega
   · rw [if_neg hfuel]; exact ⟨hoff, hle, hprops, syms, ops, henc, heo, hlen⟩
+
+theorem chunkBody_step (p : Props) (dictSize : Nat) (buf : ByteArray) (base : Nat) (tr : Array TraceRec) (segEnd off : Nat)
+    (e0 : LzmaEnc) (s : ChunkLoopSt) (hinv : ChInv p dictSize buf base off e0 s) :
+    match chunkBody dictSize buf base tr segEnd p off () s with
+    | .ok (.yield s') => ChInv p dictSize buf base off e0 s' ∧ s'.2.2.2.2.2 < s.2.2.2.2.2
+    | .ok (.done s') => ChInv p dictSize buf base off e0 s'
+    | .error _ => True := by
+  rw [chunkBody_std]; exact chunkBodyL_step .std p dictSize buf base tr segEnd off e0 s hinv
 
 /-! ### one chunk -/
 
@@ -420,13 +471,13 @@ theorem chInv_first (p : Props) (dictSize : Nat) (buf : ByteArray) (e0 : LzmaEnc
   · rw [← hrc]; exact encode_pair e0 _
   · simp [symsLen, Sym.len]
 
-theorem encodeChunk_sound (p : Props) (dictSize : Nat) (buf : ByteArray) (base : Nat) (tr : Array TraceRec) (segEnd : Nat)
+theorem encodeChunkL_sound (lim : ChunkLimits) (p : Props) (dictSize : Nat) (buf : ByteArray) (base : Nat) (tr : Array TraceRec) (segEnd : Nat)
     (c : L2Enc) (off ti : Nat) (hok : EncOk p base c off) (hoff : base + off < buf.size)
     {bytes : List UInt8} {off' ti' k : Nat} {c' : L2Enc}
-    (h : encodeChunk dictSize buf base tr segEnd c off ti = .ok (bytes, off', ti', c', k)) :
+    (h : encodeChunkL lim dictSize buf base tr segEnd c off ti = .ok (bytes, off', ti', c', k)) :
     ChunkOk p dictSize buf base (cfgOf c off) bytes (cfgOf c' off') ∧ EncOk p base c' off' := by
   obtain ⟨e0p, e0rc, e0u, e0st, e0ps⟩ := chunkE0_fields p c hok.props hok.rc
-  rw [encodeChunk_eq] at h
+  rw [encodeChunkL_eq] at h
   by_cases hini : (!c.initialized) = true
   · rw [if_pos hini] at h
     obtain ⟨s, hloop, htail⟩ := except_bind_ok h
@@ -440,10 +491,10 @@ theorem encodeChunk_sound (p : Props) (dictSize : Nat) (buf : ByteArray) (base :
     have hE0u : (chunkE0 c).uncompSize = 0 := by rw [e0u]; exact hu0
     have hinit := chInv_first p dictSize buf (chunkE0 c) ti (tr.size + 1) (initOps (buf.get! (0 + 0)))
       (symOps_init p _) hE0st hE0u e0rc (by omega)
-    have hfin := loop_except_inv (chunkBody dictSize buf 0 tr segEnd p 0) (ChInv p dictSize buf 0 0 (chunkE0 c))
+    have hfin := loop_except_inv (chunkBodyL lim dictSize buf 0 tr segEnd p 0) (ChInv p dictSize buf 0 0 (chunkE0 c))
       (ChInv p dictSize buf 0 0 (chunkE0 c)) (fun s => s.2.2.2.2.2)
       (fun b hP => by
-        have := chunkBody_step p dictSize buf 0 tr segEnd 0 (chunkE0 c) b hP
+        have := chunkBodyL_step lim p dictSize buf 0 tr segEnd 0 (chunkE0 c) b hP
         split <;> rename_i heq <;> rw [heq] at this <;> exact this)
       _ _ s (Nat.le_refl _) hinit hloop
     exact chunkTail_sound p dictSize buf 0 c 0 true hok s hfin rfl htail
@@ -454,18 +505,25 @@ theorem encodeChunk_sound (p : Props) (dictSize : Nat) (buf : ByteArray) (base :
     have hinit : ChInv p dictSize buf base off (chunkE0 c) ((chunkE0 c, off, ti, 0, 0, tr.size + 1) : ChunkLoopSt) := by
       refine ⟨Nat.le_refl _, by simp only []; omega, rfl, [], [], rfl, ?_, by simp [symsLen]⟩
       rw [← e0rc]; exact encode_pair (chunkE0 c) []
-    have hfin := loop_except_inv (chunkBody dictSize buf base tr segEnd p off) (ChInv p dictSize buf base off (chunkE0 c))
+    have hfin := loop_except_inv (chunkBodyL lim dictSize buf base tr segEnd p off) (ChInv p dictSize buf base off (chunkE0 c))
       (ChInv p dictSize buf base off (chunkE0 c)) (fun s => s.2.2.2.2.2)
       (fun b hP => by
-        have := chunkBody_step p dictSize buf base tr segEnd off (chunkE0 c) b hP
+        have := chunkBodyL_step lim p dictSize buf base tr segEnd off (chunkE0 c) b hP
         split <;> rename_i heq <;> rw [heq] at this <;> exact this)
       _ _ s (Nat.le_refl _) hinit hloop
     exact chunkTail_sound p dictSize buf base c off c.initialized hok s hfin hi htail
 
+theorem encodeChunk_sound (p : Props) (dictSize : Nat) (buf : ByteArray) (base : Nat) (tr : Array TraceRec) (segEnd : Nat)
+    (c : L2Enc) (off ti : Nat) (hok : EncOk p base c off) (hoff : base + off < buf.size)
+    {bytes : List UInt8} {off' ti' k : Nat} {c' : L2Enc}
+    (h : encodeChunk dictSize buf base tr segEnd c off ti = .ok (bytes, off', ti', c', k)) :
+    ChunkOk p dictSize buf base (cfgOf c off) bytes (cfgOf c' off') ∧ EncOk p base c' off' := by
+  rw [encodeChunk_std] at h; exact encodeChunkL_sound .std p dictSize buf base tr segEnd c off ti hok hoff h
+
 /-- a successful `encodeChunk` makes progress -/
-theorem encodeChunk_progress (dictSize : Nat) (buf : ByteArray) (base : Nat) (tr : Array TraceRec) (segEnd : Nat)
+theorem encodeChunkL_progress (lim : ChunkLimits) (dictSize : Nat) (buf : ByteArray) (base : Nat) (tr : Array TraceRec) (segEnd : Nat)
     (c : L2Enc) (off ti : Nat) {bytes : List UInt8} {off' ti' k : Nat} {c' : L2Enc}
-    (h : encodeChunk dictSize buf base tr segEnd c off ti = .ok (bytes, off', ti', c', k)) : off < off' := by
+    (h : encodeChunkL lim dictSize buf base tr segEnd c off ti = .ok (bytes, off', ti', c', k)) : off < off' := by
   have key : ∀ (ini : Bool) (s : ChunkLoopSt), chunkTail buf base c off ini s = .ok (bytes, off', ti', c', k) → off < off' := by
     intro ini s ht
     unfold chunkTail at ht
@@ -488,10 +546,15 @@ theorem encodeChunk_progress (dictSize : Nat) (buf : ByteArray) (base : Nat) (tr
       simp only [pure, Except.pure, Except.ok.injEq, Prod.mk.injEq] at ht
       simp only [Bool.or_eq_true, decide_eq_true_eq, beq_iff_eq, not_or, not_lt] at h2
       omega
-  rw [encodeChunk_eq] at h
+  rw [encodeChunkL_eq] at h
   split at h
   · obtain ⟨s, _, htail⟩ := except_bind_ok h; exact key _ s htail
   · obtain ⟨s, _, htail⟩ := except_bind_ok h; exact key _ s htail
+
+theorem encodeChunk_progress (dictSize : Nat) (buf : ByteArray) (base : Nat) (tr : Array TraceRec) (segEnd : Nat)
+    (c : L2Enc) (off ti : Nat) {bytes : List UInt8} {off' ti' k : Nat} {c' : L2Enc}
+    (h : encodeChunk dictSize buf base tr segEnd c off ti = .ok (bytes, off', ti', c', k)) : off < off' := by
+  rw [encodeChunk_std] at h; exact encodeChunkL_progress .std dictSize buf base tr segEnd c off ti h
 
 theorem chunkOk_off {p : Props} {dictSize : Nat} {buf : ByteArray} {base : Nat} {C C' : L2Cfg} {b : List UInt8}
     (h : ChunkOk p dictSize buf base C b C') : base + C'.off ≤ buf.size := by
@@ -512,11 +575,11 @@ def L2Inv (p : Props) (dictSize : Nat) (buf : ByteArray) (base : Nat) (s : L2Loo
       Chunks p dictSize buf base (cfg0 p base) s.2.1.toList.flatten (cfgOf s.1 s.2.2.1)) ∨
     buf.size - base < s.2.2.1
 
-/-- The executable LZMA2 chunker produces a valid chunk sequence covering the data, then the end marker. -/
-theorem lzma2Encode_sound (p : Props) (dictSize : Nat) (buf : ByteArray) (base : Nat) (tr : Array TraceRec)
-    (res : EncResult) (hbase : base ≤ buf.size) (h : lzma2Encode p dictSize buf base tr = .ok res) :
+/-- For ANY chunk-closing limits: the executable LZMA2 chunker produces a valid chunk sequence covering the data, then the end marker. -/
+theorem lzma2EncodeL_sound (lim : ChunkLimits) (p : Props) (dictSize : Nat) (buf : ByteArray) (base : Nat) (tr : Array TraceRec)
+    (res : EncResult) (hbase : base ≤ buf.size) (h : lzma2EncodeL lim p dictSize buf base tr = .ok res) :
     ∃ bytes CF, Chunks p dictSize buf base (cfg0 p base) bytes CF ∧ CF.off = buf.size - base ∧ res.out = bytes ++ [0] := by
-  unfold lzma2Encode at h
+  unfold lzma2EncodeL at h
   simp only [except_throw_bind] at h
   obtain ⟨s, hloop, hrest⟩ := except_bind_ok h
   have hinit : L2Inv p dictSize buf base
@@ -543,7 +606,7 @@ theorem lzma2Encode_sound (p : Props) (dictSize : Nat) (buf : ByteArray) (base :
           · rw [if_pos h4]; exact ⟨hP, by show b.2.2.2.2.2 - 1 < b.2.2.2.2.2; omega⟩
           · rw [if_neg h4]; exact hP
         rw [if_neg h2]
-        cases hck : encodeChunk dictSize buf base tr (nextMarker tr b.2.2.2.1) b.1 b.2.2.1 b.2.2.2.1 with
+        cases hck : encodeChunkL lim dictSize buf base tr (nextMarker tr b.2.2.2.1) b.1 b.2.2.1 b.2.2.2.1 with
         | error e => trivial
         | ok x =>
           obtain ⟨bytes, off', ti', c', k⟩ := x
@@ -553,10 +616,10 @@ theorem lzma2Encode_sound (p : Props) (dictSize : Nat) (buf : ByteArray) (base :
           rw [if_neg h5]
           simp only [pure, Except.pure]
           refine ⟨?_, by show b.2.2.2.2.2 - 1 < b.2.2.2.2.2; omega⟩
-          have hprog := encodeChunk_progress dictSize buf base tr _ _ _ _ hck
+          have hprog := encodeChunkL_progress lim dictSize buf base tr _ _ _ _ hck
           rcases hP with ⟨hok, hle, hch⟩ | hbad
           · by_cases hlt : base + b.2.2.1 < buf.size
-            · obtain ⟨hc1, hok'⟩ := encodeChunk_sound p dictSize buf base tr _ b.1 b.2.2.1 b.2.2.2.1 hok hlt hck
+            · obtain ⟨hc1, hok'⟩ := encodeChunkL_sound lim p dictSize buf base tr _ b.1 b.2.2.1 b.2.2.2.1 hok hlt hck
               left
               refine ⟨hok', chunkOk_off hc1, ?_⟩
               have : (b.2.1.push bytes).toList.flatten = b.2.1.toList.flatten ++ bytes := by simp
@@ -579,5 +642,11 @@ theorem lzma2Encode_sound (p : Props) (dictSize : Nat) (buf : ByteArray) (base :
     rcases hfin with ⟨_, _, hch⟩ | hbad
     · exact ⟨_, _, hch, hcov, by rw [← hrest]⟩
     · omega
+
+/-- The executable LZMA2 chunker produces a valid chunk sequence covering the data, then the end marker. -/
+theorem lzma2Encode_sound (p : Props) (dictSize : Nat) (buf : ByteArray) (base : Nat) (tr : Array TraceRec)
+    (res : EncResult) (hbase : base ≤ buf.size) (h : lzma2Encode p dictSize buf base tr = .ok res) :
+    ∃ bytes CF, Chunks p dictSize buf base (cfg0 p base) bytes CF ∧ CF.off = buf.size - base ∧ res.out = bytes ++ [0] := by
+  rw [lzma2Encode_std] at h; exact lzma2EncodeL_sound .std p dictSize buf base tr res hbase h
 
 end XzVerif.LzmaExec
